@@ -113,6 +113,33 @@ Theorem C07_single_error_is_calm : forall k, calm (single_error k).
 Proof. exact calm_single_error. Qed.
 Print Assumptions C07_single_error_is_calm.
 
+(** with revocations pending (no hypothesis on [k_ocsp]): manage may first quarantine the key of a
+    certificate revoked for key compromise and then obtain, or force a renewal (forceRenew). The
+    quarantine ([quar]: the .key deleted and/or a .key.compromised written) never creates a bundle, so
+    both results carry over: calm plans never get stuck ... *)
+Theorem C07_storage_errors_never_stuck_any_revocation : forall pl cfg sp orc h w0,
+  calm pl -> reach6 cfg sp (w_core w0) -> is_op7 h = true ->
+  stuck (w_st (snd (run_hop pl cfg sp orc h w0))) cfg (s_save sp) = false.
+Proof. intros pl cfg sp orc h w0 HC HR. apply calm_never_stuck_rev; [exact HC | apply reach6_inv, HR]. Qed.
+Print Assumptions C07_storage_errors_never_stuck_any_revocation.
+
+(** ... and under any plan the only stuck outcome is still the Store of a new .key next to an older
+    certificate for a different key, on the storage before the operation or after the quarantine *)
+Theorem C07_stuck_only_by_torn_key_store_any_revocation : forall pl cfg sp orc h w0,
+  reach6 cfg sp (w_core w0) -> is_op7 h = true ->
+  let w1 := snd (run_hop pl cfg sp orc h w0) in
+  stuck (w_st w1) cfg (s_save sp) = true ->
+  exists st1 q i k x m, quar (w_st w0) q (s_save sp) st1 /\ In i (issuers cfg) /\
+    dir_crt (w_st w0) i (s_save sp) = Some x /\ dir_meta (w_st w0) i (s_save sp) = Some m /\ c_pub x <> k /\
+    w_st w1 = sput st1 (i, s_save sp, FKey) (VKey k).
+Proof.
+  intros pl cfg sp orc h w0 HR Hop w1 HS. apply reach6_inv in HR.
+  apply (stuck_char_rev cfg sp (w_core w0) (w_core w1)); [| apply faulted_effect_rev; assumption | exact HS].
+  intros i [[[j k] x] m] Hi Hb. destruct (inv_bundle_good _ _ _ _ _ _ _ _ _ HR Hb) as (_ & _ & Hp & _).
+  cbn. apply N.eqb_eq, Hp.
+Qed.
+Print Assumptions C07_stuck_only_by_torn_key_store_any_revocation.
+
 (** the refuted class is permanent: on a stuck storage every later manage fails with the key
     mismatch and obtain is a no-op, whatever the issuers would answer; nothing changes *)
 Theorem C07_stuck_is_permanent : forall cfg sp orc c,
@@ -229,3 +256,15 @@ Theorem C07_source_order_matches_model :
   map snd (c07_file_ops (snd (load_res no_faults 0 0 c07_full))) = c07_load_order.
 Proof. vm_compute. repeat split. Qed.
 Print Assumptions C07_source_order_matches_model.
+
+(** key reuse does not protect a replacement after key compromise: the old key 0 is quarantined, a new
+    key 1 is generated, and process death right after its Store (call 16) leaves key 1 next to the
+    certificate for key 0 - stuck, although ReusePrivateKeys is on *)
+Definition w7k_w0 : world :=
+  clear_log (snd (run_hop no_faults w7r_cfg w7_sp (Oracle [] []) (HRevokeEnv 0 true)
+    (clear_log (snd (run_hop no_faults w7r_cfg w7_sp (Oracle [Some (10%Z, VFresh)] []) HManage empty_world))))).
+Example C07_keycompromise_with_reuse_gets_stuck :
+  let r := run_hop (Plan (fun _ => false) (Some 16%nat)) w7r_cfg w7_sp (Oracle [Some (20%Z, VFresh)] []) HManage w7k_w0 in
+  k_ocsp (w_core w7k_w0) = [(0, true)] /\ fst r = Dead /\ stuck (w_st (snd r)) w7r_cfg 0 = true /\
+  dir_key (w_st (snd r)) 0 0 = Some 1 /\ dir_comp (w_st (snd r)) 0 0 = Some 0.
+Proof. vm_compute. repeat split. Qed.
